@@ -514,7 +514,7 @@ def _r06_5_base_pointer(ctx, pe, bc, grow):
     calls = [pe.call_at(x.b) for x in src if x.kind == "call"]
     calls = [c for c in calls if c is not None]
     names = {c.callee for c in calls}
-    amp = [c for c in calls if c.callee == "std::vec::Vec::as_mut_ptr"]
+    amp = [c for c in calls if c.callee.rsplit("::", 1)[-1] == "as_mut_ptr"]
     adds = [c for c in calls if c.callee.rsplit("::", 1)[-1] in ("add", "offset", "wrapping_add") and "ptr" in c.callee]
     spare = [c for c in calls if c.callee == "std::vec::Vec::spare_capacity_mut"]
     tail = [c for c in calls if c.callee.endswith("::index_mut") or c.callee.endswith("::get_unchecked_mut") or c.callee.endswith("::split_at_mut")]
@@ -528,6 +528,17 @@ def _r06_5_base_pointer(ctx, pe, bc, grow):
                      "the task closure's base pointer derives from %s: expected vec.as_mut_ptr().add(old_len) - without the old "
                      "length the calls overwrite the entries already in the vector" % sorted(n.rsplit("::", 2)[-2] + "::" + n.rsplit("::", 1)[-1] for n in names),
                      bc.line()):
+        return
+    if tail and not adds:
+        # base = vec[old_len..].as_mut_ptr(): the range starts at the length read before the vector grows
+        rng = pe.prov.op_src(tail[0].args[1]) if len(tail[0].args) > 1 else []
+        lens = [pe.call_at(x.b) for x in rng if x.kind == "call" and x.a == "std::vec::Vec::len"]
+        recv = {x.label() for c_ in lens for x in pe.prov.op_src(c_.args[0])}
+        other = [x.label() for x in rng if (x.kind == "param" and x.label() not in recv) or x.kind == "binop" or
+                 (x.kind == "const" and x.a.split("_")[0].isdigit() and not x.a.startswith("0_"))]
+        ok = len(lens) == 1 and not other and pe.dominates(lens[0].bb, grow.bb) and pe.dominates(grow.bb, tail[0].bb)
+        ctx.check(ok, "R06.5", key, "the tail slice the base pointer is taken from starts at %s, expected exactly the vector's length "
+                  "read before it grows" % sorted(x.label() for x in rng), tail[0].line())
         return
     if adds:
         off = pe.prov.op_src(adds[0].args[1])
